@@ -3,7 +3,7 @@
    generated struct type (model decode = ReadFrom, model encode(decode) = WriteTo, byte-exact). *)
 From Coq Require Import List NArith ZArith Sorted.
 From TarsV Require Import Base.Hex Codec.Wire Codec.Skip Codec.SkipProofs Codec.Prim Codec.PrimProofs Codec.GenCodec Codec.Corr Codec.GenProofs
-  Codec.RoundTrip Codec.RoundTripProofs Codec.NormProofs Codec.WireSpec Codec.WireSpecProofs Codec.RoundTripExamples Codec.CorrT Gen.Schemas.
+  Codec.RoundTrip Codec.RoundTripProofs Codec.NormProofs Codec.WireSpec Codec.WireSpecProofs Codec.RoundTripExamples Codec.CanonProofs Codec.CanonExamples Codec.CorrT Gen.Schemas.
 Import ListNotations.
 Open Scope N_scope.
 
@@ -116,6 +116,57 @@ Proof. exact WireSpecProofs.wint_narrowest. Qed.
 Theorem C03_wire_admissible : forall e t v, has_type e t v -> adm t (ty_of (wire_of e t v)) = true.
 Proof. exact WireSpecProofs.adm_wire. Qed.
 
+(* THE ENCODING IS CANONICAL. encode o norm = encode: what is decoded from an encoding re-encodes to the same bytes
+   (decode-then-encode is the identity on every image of the encoder); two well-typed values have the same bytes
+   exactly when they have the same normal form - so the bytes of a value are unique and the encoder is injective
+   up to norm (Go's == on optional floats that were left out). Every wf_schema environment with typed defaults,
+   every struct type with a finite type graph. *)
+Theorem C03_encode_norm : forall e, defaults_typed e -> forall sid vs, has_type e (TStruct sid) (VStruct vs) ->
+  encode e sid (norm_struct e sid (VStruct vs)) = encode e sid (VStruct vs).
+Proof. exact CanonProofs.encode_norm. Qed.
+Theorem C03_reencode_canonical : forall e k n, wf_schema k e -> defaults_typed e -> (S k <= 64)%nat ->
+  forall sid, tfin n e (TStruct sid) = true -> (tneed n e (TStruct sid) + k <= 64)%nat ->
+  forall vs, has_type e (TStruct sid) (VStruct vs) ->
+  exists v', decode e sid (encode e sid (VStruct vs)) = DOk v' [] /\ encode e sid v' = encode e sid (VStruct vs).
+Proof. exact CanonProofs.reencode_canonical. Qed.
+Theorem C03_encode_injective : forall e k n, wf_schema k e -> defaults_typed e -> (S k <= 64)%nat ->
+  forall sid, tfin n e (TStruct sid) = true -> (tneed n e (TStruct sid) + k <= 64)%nat ->
+  forall vs1 vs2, has_type e (TStruct sid) (VStruct vs1) -> has_type e (TStruct sid) (VStruct vs2) ->
+  (encode e sid (VStruct vs1) = encode e sid (VStruct vs2) <-> norm_struct e sid (VStruct vs1) = norm_struct e sid (VStruct vs2)).
+Proof. exact CanonProofs.encode_injective. Qed.
+Theorem C03_code_schemas_reencode_canonical : forall sid vs, fits_model sid = true -> has_type env0 (TStruct sid) (VStruct vs) ->
+  exists v', decode env0 sid (encode env0 sid (VStruct vs)) = DOk v' [] /\ encode env0 sid v' = encode env0 sid (VStruct vs).
+Proof. exact CanonExamples.env0_reencode_canonical. Qed.
+Theorem C03_code_schemas_encode_injective : forall sid vs1 vs2, fits_model sid = true ->
+  has_type env0 (TStruct sid) (VStruct vs1) -> has_type env0 (TStruct sid) (VStruct vs2) ->
+  (encode env0 sid (VStruct vs1) = encode env0 sid (VStruct vs2) <-> norm_struct env0 sid (VStruct vs1) = norm_struct env0 sid (VStruct vs2)).
+Proof. exact CanonExamples.env0_encode_injective. Qed.
+(* ... and ONLY there: "decode-then-encode is the identity on every ACCEPTED input" is false. The readers accept more
+   than the writers produce, by design of the wire format (readers widen): an integer in a wider-than-narrowest
+   width, STRING4 for a short string, a member present at its default, ZeroTag for a float, a double sent as FLOAT,
+   vector<byte> as LIST, unknown fields. Each kind is accepted with everything consumed and re-encodes to different -
+   the canonical - bytes (noncanonical_images, evaluated on the model; replayed on the generated Go code, see design/C03.md). *)
+Definition C03_reencode_identity_statement : Prop :=
+  forall e sid bs v, decode e sid bs = DOk v [] -> encode e sid v = bs.
+Theorem C03_reencode_identity_refuted : ~ C03_reencode_identity_statement.
+Proof. exact CanonProofs.reencode_identity_refuted. Qed.
+Theorem C03_noncanonical_images :
+  noncanonical [1; 0; 5] = true /\ noncanonical [2; 0; 0; 0; 5] = true /\ noncanonical [0; 5; 23; 0; 0; 0; 1; 97] = true
+  /\ noncanonical [0; 5; 32; 7] = true /\ noncanonical [0; 5; 57; 0; 1; 0; 9] = true /\ noncanonical [0; 5; 92] = true
+  /\ noncanonical [0; 5; 84; 63; 128; 0; 0] = true /\ noncanonical [0; 5; 64; 9] = true /\ noncanonical [0; 5] = false.
+Proof. exact CanonProofs.noncanonical_images. Qed.
+(* the round trip on the member shapes the schema language allows beyond the regenerated schemas: fixed arrays of
+   ragged nested vectors, arrays of byte vectors, vectors of arrays of maps, optional members of every scalar type at
+   non-zero declared defaults (left out) and away from them, an empty required byte vector as the last bytes *)
+Theorem C03_shapes_roundtrip :
+  (has_type shapes (TStruct 0) (VStruct shape1) /\
+   decode shapes 0 (encode shapes 0 (VStruct shape1)) = DOk (norm_struct shapes 0 (VStruct shape1)) [] /\
+   norm_struct shapes 0 (VStruct shape1) = VStruct shape1) /\
+  (has_type shapes (TStruct 0) (VStruct shape2) /\
+   decode shapes 0 (encode shapes 0 (VStruct shape2)) = DOk (norm_struct shapes 0 (VStruct shape2)) [] /\
+   norm_struct shapes 0 (VStruct shape2) = VStruct shape2).
+Proof. exact (conj CanonExamples.shape1_roundtrip CanonExamples.shape2_roundtrip). Qed.
+
 (* member level: every scalar member type round-trips under any tag, before any suffix, exact cursor *)
 Theorem C03_scalar_member_roundtrip : forall f e tag req t prior v rest, tag < 256 -> scalar_typed t v ->
   dec_var (S (S f)) e tag req t prior (w_scalar t v tag ++ rest) = DOk v rest.
@@ -142,6 +193,14 @@ Print Assumptions C03_wire_conformance.
 Print Assumptions C03_wire_member.
 Print Assumptions C03_int_narrowest.
 Print Assumptions C03_wire_admissible.
+Print Assumptions C03_encode_norm.
+Print Assumptions C03_reencode_canonical.
+Print Assumptions C03_encode_injective.
+Print Assumptions C03_code_schemas_reencode_canonical.
+Print Assumptions C03_code_schemas_encode_injective.
+Print Assumptions C03_reencode_identity_refuted.
+Print Assumptions C03_noncanonical_images.
+Print Assumptions C03_shapes_roundtrip.
 Print Assumptions C03_scalar_member_roundtrip.
 Print Assumptions C03_wf_schema_b_sound.
 Print Assumptions C03_has_type_b_sound.
